@@ -69,6 +69,20 @@ def gen(rng, tier):
         for x in [1 << (64 * la - 1), 1 << (64 * la), val([MAX] * la)]:
             for e in [2, 3, 5, 8, 13, 16, 17]:
                 emit(signed(rng, x), e)
+    # squaring in the recursive multiplication regimes with the operand patterns that stress a scratch buffer without
+    # headroom (C12-v1: pow squares into a 2n-digit accumulator; Karatsuba's running sum p2 + p0 overflows it for an odd
+    # digit count with the top half all ones): all-ones / top-half-ones / bottom-half-ones bases with odd and even digit
+    # counts inside and at the edges of the Karatsuba regime, exponents 2, 3, 4
+    import c02 as _c02
+    tS, tK = _c02.thresholds()
+    ns = [tS, tS + 1, tS + 2, 2 * tS + 1, 65, 66, 129, tK - 1, tK, tK + 1] if tier == "thorough" else [tS + 1, tS + 2, 65, tK - 1, tK + 1]
+    for n in ns:
+        h = n // 2
+        shapes = [[MAX] * n, [rng.randrange(B) for _ in range(h)] + [MAX] * (n - h), [MAX] * (n - h) + [rng.randrange(B) for _ in range(h - 1)] + [1],
+                  [0] * (h - 1) + [1] + [MAX] * (n - h)]
+        for ds in (shapes if tier == "thorough" else shapes[:2] + [rng.choice(shapes[2:])]):
+            for e in ((2, 3, 4) if tier == "thorough" else (2, 3)):
+                emit(signed(rng, val(ds)), e)
     # type maxima with bases 0 / +-1 (the loop runs its full width)
     for (t, w) in TYPES:
         for e in [(1 << w) - 1, (1 << w) - 2, 1 << (w - 1), (1 << (w - 1)) + 1]:
